@@ -515,11 +515,25 @@ def eval_small(e, env):
                 return False
             left = right
         return True
-    if isinstance(e, ast.Subscript) and isinstance(e.slice, ast.Constant):
+    if isinstance(e, ast.Subscript):
+        base = eval_small(e.value, env)
         try:
-            return eval_small(e.value, env)[e.slice.value]
+            if isinstance(e.slice, ast.Slice):
+                parts = [None if x is None else eval_small(x, env) for x in (e.slice.lower, e.slice.upper, e.slice.step)]
+                r = base[slice(*parts)]
+                return Vec(r) if isinstance(base, Vec) else r
+            return base[eval_small(e.slice, env)]
+        except Undecidable:
+            raise
         except Exception:
             raise Undecidable("subscript")
+    if isinstance(e, ast.Call) and not e.keywords and isinstance(e.func, ast.Name) and e.func.id == "range" and 1 <= len(e.args) <= 3:
+        try:
+            return tuple(range(*[eval_small(x, env) for x in e.args]))
+        except Undecidable:
+            raise
+        except Exception:
+            raise Undecidable("range")
     if isinstance(e, ast.Call) and not e.keywords and call_name(e) in ("min", "max", "any", "all", "sum", "prod") and (
             (isinstance(e.func, ast.Attribute) and not e.args and not (isinstance(e.func.value, ast.Name) and e.func.value.id in ("np", "numpy")))
             or (isinstance(e.func, ast.Attribute) and isinstance(e.func.value, ast.Name) and e.func.value.id in ("np", "numpy") and len(e.args) == 1)):
